@@ -197,6 +197,8 @@ impl<'a, C> ParseState<'a, C> {
         self.env = ParseState::_build_env(input);
         self.len_env = self.env.len();
         self.head = head;
+        // 清空「中间解析结果」：上一次解析（尤其是失败的解析）遗留的条目不得带入下一次解析
+        self.mid_result = MidParseResult::new();
     }
 
     /// 重置状态
